@@ -267,7 +267,15 @@ func (r *c36run) runSeq(sim *simrt.Sim) {
 				did = "skip"
 				break
 			}
-			os.WriteFile(p, content(int(fi.Size()), i+1), 0644)
+			if fi.Size() > 1<<20 {
+				// a sparse giant: change a few bytes in place, do not materialise it
+				if f, err := os.OpenFile(p, os.O_WRONLY, 0644); err == nil {
+					f.WriteAt(content(16, i+1), 0)
+					f.Close()
+				}
+			} else {
+				os.WriteFile(p, content(int(fi.Size()), i+1), 0644)
+			}
 			stamp(p)
 			res.Faults["same-size-edit"]++
 		case "append":
